@@ -836,4 +836,27 @@ theorem run_keeps (ansi : Bool) (w : Nat) (ops : List Op) : ∀ (secs : List Sec
     · exact s2 c hc
     · exact r2 c hc
 
+/-! ### the deciders of the model decide the hypotheses -/
+
+theorem textOkB_iff (l : Str) : textOkB l = true ↔ TextOk l := by
+  simp [textOkB, TextOk]
+
+theorem opOkB_iff (op : Op) : opOkB op = true ↔ OpOk op := by
+  cases op <;> simp [opOkB, OpOk, textOkB_iff]
+
+theorem wfB_iff (w : Nat) (ops : List Op) :
+    wfB w ops = true ↔ 1 ≤ w ∧ ∀ op ∈ ops, OpOk op := by
+  simp [wfB, opOkB_iff]
+
+/-- printing lines on an empty screen leaves the cursor on the row after the last one: the start
+situation the driver hands to the terminal model is the one `screen_refines` starts from -/
+theorem prints_anchored (w : Nat) (ls : List Str) (scr : Screen) (h : scr.cur = scr.rows.length) :
+    (execs w scr (ls.map .print)).cur = (execs w scr (ls.map .print)).rows.length := by
+  induction ls generalizing scr with
+  | nil => simpa [execs] using h
+  | cons l r ih =>
+    simp only [List.map_cons, execs, List.foldl_cons]
+    apply ih
+    simp [exec, h, overlay_nil]
+
 end Clikit.Section
